@@ -5,6 +5,7 @@
 From stdpp Require Import gmap.
 From Coq Require Import NArith ZArith Lia.
 From Synnax Require Import Aspen.KV Aspen.KVJoin Aspen.KVInv Aspen.KVQuiesce Aspen.KVWitness.
+From Synnax Require Aspen.KV Aspen.VersionSrc.
 Local Open Scope N_scope.
 
 (* (1) The rule every node applies: [supersedes] is the strict lexicographic order on
@@ -181,3 +182,13 @@ Proof.
   destruct f5_script_covered as (H1 & H2 & H3).
   split; [exact H1|]. split; [exact H2|]. split; [exact H3|]. exact f5_fixed_entry.
 Qed.
+
+(* ---- tie to the source by translation: the acceptance rule of the model (KV.supersedes, a copy of
+   aspen/internal/kv/filter_persist.go supersedes) uses the version order that translator/go2coq regenerates from
+   x/go/version/counter.go on every run (Generated/Src_Version.v). *)
+Theorem C06_version_order_from_source : forall d o,
+  KV.supersedes (Some d) o =
+  if VersionSrc.S.Counter_EqualTo (KV.o_ver o) (KV.o_ver d) then (KV.o_lh d <? KV.o_lh o)%N
+  else VersionSrc.S.Counter_NewerThan (KV.o_ver o) (KV.o_ver d).
+Proof. exact VersionSrc.supersedes_from_source. Qed.
+Print Assumptions C06_version_order_from_source.
